@@ -38,10 +38,44 @@ CLAIMS = {
    "deterministic simulation: seeded write-out histories over the simulated disk, real ReadMetadata for drawn (first,last) ranges compared with the reference model and with the totals of a real query",
    "After write-outs of a seeded history (1-2 interfaces, days incl. month/year ends) 12 ranges per interface are drawn with bounds on block stamps, +-1 s around them, between blocks, on day boundaries, before/after all data and first=last; DBWorkManager.ReadMetadata must equal the sum of the model's blocks with first <= t <= last (flows per IP version, drops, four counters) and its counters must equal Summary.Totals of an engine query over the same range.",
    "Fault-free configuration. Range bounds inclusive on both ends as in the query engine."),
+ "C06": ("query-sim", "exploration", "7.6",
+   "deterministic simulation with fault injection: stored-byte damage (truncation, bit flips, garbage, deleted/swapped/foreign files) of one day of a database written by the real writer; real query engine and listing; containment oracle against the reference query model",
+   "A valid database (2 interfaces x 3 days) is written by the real writer, 1-3 damage faults hit column or metadata files of one (interface, day), then queries with time/interface labels (1-4 workers, low-mem on/off) and both interface summaries run: no crash (a panic in a worker goroutine kills the worker process and is reported as process-crash), a result instead of an error, rows of every undamaged day exactly as the model, skipped blocks counted in Summary.Stats when the metadata is intact.",
+   "No checksums exist, so rows attributed to the damaged day are unconstrained. Length fields of damaged metadata are clamped to 64 MiB (allocation behaviour is a C03 known finding)."),
+ "C08": ("query-sim", "exploration", "7.8",
+   "deterministic simulation (fault-free configuration): databases written by the real writer on the simulated disk, generated queries executed by the real engine with drawn worker count / memory mode, compared with an executable reference aggregation (M_query) that evaluates generated condition ASTs independently",
+   "Per generated database 6-15 generated queries (attribute subsets, time/iface labels, condition trees of depth <= 3 over all attributes, comparators and sugared forms with IPv4/IPv6 literals and networks of every prefix length, ranges on/around block stamps and day boundaries, direction filters, interface subsets, 1-16 workers, low-mem on/off): rows as multiset, Summary.Totals and Hits.Total must equal the reference aggregation of the stored flows.",
+   "Row order is not compared. Conditions follow the C09 semantics. Two known deviations are classified by dedicated clauses (family pruning, IPv6 rendering)."),
+ "C11": ("query-sim", "exploration", "7.11",
+   "deterministic simulation: seeded scheduler (testing/synctest bubble + parking at every file-system operation) decides which query worker goroutine proceeds; worker count via guarded hook; results compared across configurations and with the reference model; bounded liveness for termination",
+   "One database and query run under 3-5 configurations (1-16 workers, low-mem on/off), each under a seeded schedule (uniform, burst, priority with change points, run-to-completion with preemption) that picks the next worker at every file-system operation, so bulk completion and merge order vary; rows and totals must equal the sequential run and the model. One run in eight builds 2047-2112 day directories and demands that a single-worker query returns within one simulated hour of idling.",
+   "Interleavings are controlled at file-system operations; code between two operations runs under the Go scheduler (results are compared as multisets)."),
+ "C24": ("merge-sim", "exploration", "7.24",
+   "deterministic simulation (fault-free configuration): real MergeDatabases over a read-only source disk and a destination disk for generated database pairs; destination compared with an executable model of the documented per-day plan; source mutations detected at operation level",
+   "Generated pairs (1-3 interfaces x 1-3 days, each day missing / clearly partial / clearly complete on either side, colliding block stamps with different payloads) and options (overwrite, interface subset, tolerance) run as dry run, merge and repeated merge: destination content equals M_merge, MergeSummary equals the planned actions, the dry run leaves the destination tree byte-identical, any mutating file-system operation under the source mount is a violation, a second merge changes nothing.",
+   "Days are generated clearly complete or clearly partial so the oracle does not mirror the completeness heuristic's tolerance arithmetic."),
+ "C25": ("merge-sim", "fault_enumeration", "7.25",
+   "deterministic simulation with fault injection: process kill enumerated at every structural file-system operation (and sampled, partly torn, data writes) of real merges; post-crash oracle through the real query engine, listing and a later merge",
+   "For each generated pair the merge is killed before every mkdir/create/rename/remove/chmod (capped at 120, thorough 600; renames and removes always kept) and at sampled writes (half torn). After each distinct post-crash disk state: interface listing returns exactly real interfaces, an any-query succeeds, every (interface, day) returns either its pre-merge rows or its merged rows through the real engine, and a later uninterrupted merge succeeds and yields M_merge.",
+   "Crash model is process kill. Data writes of large days are sampled; structural operations are enumerated."),
+ "C26": ("store-sim", "exploration", "7.26",
+   "deterministic simulation: generated CSV files read through a simulated file that returns drawn chunk sizes per read; real importer; destination queried through the real engine and compared with the reference model",
+   "Generated CSV files (permuted schemas with/without iface column, header or --schema, IPv4/IPv6 rows, padded cells, eight kinds of malformed rows, duplicate keys, time regressions, MaxRows) are imported twice with different read chunking (1..4096 bytes per read): RowsRead = RowsImported + RowsSkipped and equal the model's counts, the destination holds exactly the accepted rows (summed per key), time regressions are rejected, the result does not depend on the chunking.",
+   "Short reads are injected only on the CSV input, never on database files."),
+ "C30": ("query-sim", "exploration", "7.30",
+   "deterministic simulation: writer and reader processes on one simulated disk, seeded scheduler interleaves their file-system operations; recorded history (start/end step of every write-out and query) checked for per-day prefix consistency against the reference model",
+   "A writer performs 1-4 write-outs (some crossing a day/month/year boundary; every commit renames the day directory) while a reader runs 1-3 queries with time labels or listings; the scheduler decides at every file-system operation of either process who proceeds. Oracle: no error, no corrupted blocks, per day a prefix of the committed blocks bounded by [completed before the query started, started before it ended], every visible block exactly as written.",
+   "The model-checked clause of the statement is a different technique and is not claimed. Interleavings are controlled at file-system operations."),
+ "C31": ("query-sim", "exploration", "7.31",
+   "deterministic simulation: bursts of client goroutines on query runners sharing one semaphore, seeded scheduler + fake clock (semaphore time-outs), failures after slot acquisition and cancellations injected; history oracle over scheduler steps",
+   "K in 1..3 slots, K+1..3K+2 clients issue 1-2 queries each at drawn simulated instants; a call succeeds, fails with an I/O error on the interface listing (after the slot was taken) or is cancelled at a drawn operation; the scheduler interleaves at every file-system operation and advances the fake clock so TryAddFor time-outs expire. Checked: executing <= K at every step, 'too many requests' only if all K slots were held throughout the waiting window, no slot held after quiescence, K fresh queries succeed, every caller returns.",
+   "Engine variant only so far (the distributed runner shares the same semaphore logic and is added with dist-sim). Each client uses its own QueryRunner on the shared semaphore."),
 }
 
 ENGINES = {
- "store-sim": ("harness/store", "real gpfile/DBWriter/reader/listing/query code over the simulated disk; seeded histories of write sessions, restarts, kills, torn writes and I/O errors"),
+ "store-sim": ("harness/store", "real gpfile/DBWriter/reader/listing/query/CSV-import code over the simulated disk; seeded histories of write sessions, restarts, kills, torn writes and I/O errors"),
+ "merge-sim": ("harness/merge", "real MergeDatabases over a read-only source disk and a destination disk; generated database pairs; kills at every structural operation"),
+ "query-sim": ("harness/query", "real query engine over databases written by the real writer; worker count, memory mode, goroutine schedule (seeded scheduler in a synctest bubble), reader/writer interleaving, stored-byte damage and semaphore time-outs decided by the simulator"),
 }
 
 def main():
